@@ -296,6 +296,10 @@ func C13(r *ev.Report) {
 func init() {
 	Parts["C13"] = Part{"C13", C13}
 	Replayers["C13"] = func(c Case) (bool, string) {
+		if c["op"] == "persist" {
+			return Replayers["C10"](c)
+		}
+
 		var key, detail string
 
 		switch c["op"] {
